@@ -7,6 +7,9 @@ import (
 	"github.com/jcmturner/gokrb5/v8/types"
 )
 
+// VerifMinimal: false in this (full) variant of the exports; see shim/exports-min.
+const VerifMinimal = false
+
 // VerifSession is a session as the oracles see it.
 type VerifSession struct {
 	Realm      string
